@@ -2,6 +2,7 @@
 //!
 //!   dv-room gen  --prop C10 --seed S --n N --out FILE
 //!   dv-room run  --ops FILE --out FILE [--stats FILE] [--work DIR] [--jobs J]
+mod bench;
 mod gen;
 mod inst;
 mod world;
@@ -13,6 +14,7 @@ use world::*;
 async fn run_lines(lines: &[String], work: &PathBuf, stats: &mut Stats) -> Vec<String> {
     let mut out = Vec::with_capacity(lines.len());
     let mut world: Option<World> = None;
+    let mut bench: Option<bench::Bench> = None;
     for line in lines {
         let (kind, kv) = parse_kv(line);
         let res: String = match kind.as_str() {
@@ -20,6 +22,8 @@ async fn run_lines(lines: &[String], work: &PathBuf, stats: &mut Stats) -> Vec<S
                 if let Some(w) = world.as_mut() {
                     w.cleanup();
                 }
+                world = None;
+                bench = None;
                 let id = kv.get("id").and_then(|v| v.parse::<u64>().ok());
                 let keys = kv.get("keys").and_then(|v| v.parse::<u64>().ok());
                 let dmax = kv.get("dmax").and_then(|v| v.parse::<i64>().ok());
@@ -31,7 +35,11 @@ async fn run_lines(lines: &[String], work: &PathBuf, stats: &mut Stats) -> Vec<S
                         } else {
                             discret::verif_hooks::uid::set_sequential(1);
                         }
-                        world = Some(World::new(work.clone(), id, keys, dmax));
+                        if kv.get("mode").map(|m| m == "fn").unwrap_or(false) {
+                            bench = Some(bench::Bench::new(id, keys, dmax));
+                        } else {
+                            world = Some(World::new(work.clone(), id, keys, dmax));
+                        }
                         stats.inc("cases");
                         format!("case {}", id)
                     }
@@ -40,6 +48,27 @@ async fn run_lines(lines: &[String], work: &PathBuf, stats: &mut Stats) -> Vec<S
                         "bad-op".into()
                     }
                 }
+            }
+            k if bench.is_some() => {
+                let b = bench.as_mut().unwrap();
+                let r = match k {
+                    "rmut" => b.op_rmut(&kv),
+                    "robs" => b.op_robs(&kv),
+                    "new" => b.op_new(&kv),
+                    "upd" => b.op_upd(&kv),
+                    "nest" => b.op_nest(&kv),
+                    "null" => b.op_null(&kv),
+                    "del" => b.op_del(&kv),
+                    "delref" => b.op_delref(&kv),
+                    "deladm" => b.op_deladm(&kv),
+                    _ => "bad-op".into(),
+                };
+                stats.inc(&format!("op.{}", k));
+                let cls = r.split(' ').next().unwrap_or("").to_string();
+                if cls.starts_with("err") || cls == "ok" {
+                    stats.inc(&format!("res.{}.{}", k, cls));
+                }
+                r
             }
             k => match world.as_mut() {
                 None => "bad-op".into(),
@@ -216,6 +245,7 @@ fn main() {
             let out = a.str_or("out", "cases.ops");
             match prop.as_str() {
                 "C10" => gen::gen_c10(a.u64_or("seed", 1), a.usize_or("n", 100), &out, a.get("long").is_some()),
+                "C01" => gen::gen_c01(a.u64_or("seed", 1), a.usize_or("n", 100), &out, a.get("long").is_some()),
                 _ => {
                     eprintln!("unknown --prop {}", prop);
                     std::process::exit(2);
